@@ -308,6 +308,8 @@ class RBFEvaluator(FuncEvaluator, XCEvalSerializable):
                     else start + len(kernel.length_scale) * step
                 )
                 indexes = [i for i in range(start, stop, step)]
+            else:
+                indexes = kernel.indexes
             indexes = np.array(indexes, dtype=np.int32)
         else:
             indexes = np.arange(len(kernel.length_scale), dtype=np.int32)
